@@ -202,7 +202,9 @@ def check(h, reason):
             terms = [e for e in ev if e["kind"] in ("sigint-sent", "stop-call", "shutdown-call") or (e["kind"] == "raise" and e.get("pid") in specs) or (e["kind"] == "return" and e.get("value") != "none" and specs.get(e.get("pid"), {}).get("trigger"))]
             killers = [e for e in terms if e["kind"] == "sigint-sent" or e.get("exc") in ("SystemExit", "KeyboardInterrupt")]
             swallowing = sorted({e["pid"] for e in ev if e["kind"] == "swallowed-cancel" and specs.get(e["pid"], {}).get("flavour") == "asyncio"} - set(finished))
-            if swallowing and len(terms) >= 2 and killers and any(k["seq"] > terms[0]["seq"] for k in killers):
+            # (the order in which the two were *noticed* by the runtime is not the order of these events when they
+            # happen within the same instant: a SIGINT is acted on at the main thread's next bytecode boundary)
+            if swallowing and len(terms) >= 2 and killers:
                 v.append({"key": "C02/not-ended/two-terminations/swallowed-last-cancel", "msg": "terminations %r; asyncio payload(s) %r swallowed the last cancellation sent to them and were never cancelled again: the run call had not ended %.2f virtual seconds after the trigger (%s)" % ([(e["kind"], e.get("pid"), e.get("exc") or e.get("value")) for e in terms], swallowing, S.now - te["t"], reason)})
                 return v, shape, True
             v.append({"key": "C02/not-ended/%s" % trig, "msg": "trigger %s at t=%.4f but the run call had not ended %.2f virtual seconds later (%s); thread payloads blocked: %d" % (trig, te["t"], S.now - te["t"], reason, sum(1 for e in ev if e["kind"] == "blocking" and specs[e["pid"]]["flavour"] == "threading"))})
